@@ -6,6 +6,7 @@ CONSTANTS
   Unit = FALSE
   Variant = "fixed"
   MaxCalls = 4
+  AllocFail = FALSE
   Trunc = {9, 7, 4, 0}
 INVARIANTS NoReleaseBeforeVerify HistoryIndependence SequentialPrefix NoSilentTruncation
 PROPERTY EveryCallReturns
